@@ -339,6 +339,47 @@ func c13StubOps() []c13Op {
 		}
 		return ""
 	})
+	// signer objects obtained through the client: plain Sign, and Sign with a requested RSA algorithm, reach the served
+	// agent with the flags the algorithm stands for and hand back its signature (x/crypto's own agent signers offer
+	// SignWithAlgorithm; a signer through this client that cannot be asked for rsa-sha2 has lost an argument)
+	for _, alg := range []struct {
+		name string
+		flag agent.SignatureFlags
+	}{{"", 0}, {ssh.KeyAlgoRSASHA256, agent.SignatureFlagRsaSha256}, {ssh.KeyAlgoRSASHA512, agent.SignatureFlagRsaSha512}, {ssh.KeyAlgoRSA, 0}} {
+		alg := alg
+		add("signers-sign-rsa-alg"+alg.name, func(cl yubiagent.YubiAgent, st *stubAgent) string {
+			st.Err = nil
+			rsaPub := fix.Pub(fKrsa)
+			st.Keys = []*agent.Key{{Format: fix.Pub(fK1).Type(), Blob: fix.Pub(fK1).Marshal(), Comment: "a"}, {Format: rsaPub.Type(), Blob: rsaPub.Marshal(), Comment: "rsa"}}
+			st.Sig, _ = fix.Signer(fKrsa).Sign(rand.Reader, []byte("anything"))
+			ss, err := cl.Signers()
+			if err != nil || len(ss) != 2 {
+				return fmt.Sprintf("Signers returned %d signers, err=%v", len(ss), err)
+			}
+			data := []byte("data signed through a signer object")
+			var sig *ssh.Signature
+			if alg.name == "" {
+				sig, err = ss[1].Sign(rand.Reader, data)
+			} else {
+				as, ok := ss[1].(ssh.AlgorithmSigner)
+				if !ok {
+					return "the signer object for an RSA key obtained through the client cannot be asked for a signature algorithm (it is not an ssh.AlgorithmSigner, the served agent's own signers are)"
+				}
+				sig, err = as.SignWithAlgorithm(rand.Reader, data, alg.name)
+			}
+			c, m := last(st, "Sign")
+			if m != "" {
+				return m
+			}
+			if !bytes.Equal(c.KeyBlob, rsaPub.Marshal()) || !bytes.Equal(c.Data, data) || c.Flags != alg.flag {
+				return fmt.Sprintf("served agent received flags %d (data %d bytes), the signer was asked for %q = flags %d", c.Flags, len(c.Data), alg.name, alg.flag)
+			}
+			if err != nil || sig == nil || !bytes.Equal(sig.Blob, st.Sig.Blob) {
+				return fmt.Sprintf("signature returned by the signer object differs from the served agent's (err=%v)", err)
+			}
+			return ""
+		})
+	}
 	// add-hardware-certificate, client encoding and legacy encoding, success and error texts
 	for _, cm := range comments {
 		cm := cm
@@ -890,7 +931,7 @@ func errClassY(err error) string {
 }
 
 func checkC13(c *ev.Ctx) {
-	c.Rule("yubiagent.NewClient through the dial seam; the peer runs the real ServeAgent synchronously per request over (i) a recording YubiAgent with scripted results and (ii) the real server with a fake yubico-piv-tool. Every operation alone: List (0..3 keys, comments '', ascii, UTF-8, 300 bytes), SignWithFlags (3 key types x data {0,1,64,65536} x flags {0,2,4,6}; certificate keys of 3 types x {ordinary, 7 KiB} certificate x data {0,65535,65536}), Add (3 key types x cert x lifetime {0,1,2^32-1} x confirm), Remove, RemoveAll, Lock/Unlock (5 passphrases), Signers, AddHardCert (client and legacy encoding, 4 comments, certificates and plain keys of 3 key types), Wait (6 codes), slot operations (slot names, 2 certificate sizes), raw Forward (3 bodies x 4 replies up to 70 KB), Extension, smart-card requests, scripted failures with 5 error texts; transport failures: the response of each of 16 operations cut after {0, 2, 4 bytes, half the body, all but the last byte} and the stream ended (the call must return an error); held results (6 value-returning operations x 16 following operations: the kept bytes must not change); every ordered pair over a 30-operation generating set; PIV tool outputs (well-formed status, 'Slot' alone, 'Slot 9' (6 chars), 'Slot 9a' (7), 'Slot9a:', CRLF, empty, 1 MiB, exit status {1,2,255} with and without text on standard error (up to 70 KB), PEM/garbage for read/attest) in local and remote mode; after every tool run the server holds no lock and a following slot operation completes. non-trivial = operation sequence whose arguments and results were compared; distinct by sequence")
+	c.Rule("yubiagent.NewClient through the dial seam; the peer runs the real ServeAgent synchronously per request over (i) a recording YubiAgent with scripted results and (ii) the real server with a fake yubico-piv-tool. Every operation alone: List (0..3 keys, comments '', ascii, UTF-8, 300 bytes), SignWithFlags (3 key types x data {0,1,64,65536} x flags {0,2,4,6}; certificate keys of 3 types x {ordinary, 7 KiB} certificate x data {0,65535,65536}), Add (3 key types x cert x lifetime {0,1,2^32-1} x confirm), Remove, RemoveAll, Lock/Unlock (5 passphrases), Signers (and signing through the signer objects, plain and with each RSA algorithm), AddHardCert (client and legacy encoding, 4 comments, certificates and plain keys of 3 key types), Wait (6 codes), slot operations (slot names, 2 certificate sizes), raw Forward (3 bodies x 4 replies up to 70 KB), Extension, smart-card requests, scripted failures with 5 error texts; transport failures: the response of each of 16 operations cut after {0, 2, 4 bytes, half the body, all but the last byte} and the stream ended (the call must return an error); held results (6 value-returning operations x 16 following operations: the kept bytes must not change); every ordered pair over a 30-operation generating set; PIV tool outputs (well-formed status, 'Slot' alone, 'Slot 9' (6 chars), 'Slot 9a' (7), 'Slot9a:', CRLF, empty, 1 MiB, exit status {1,2,255} with and without text on standard error (up to 70 KB), PEM/garbage for read/attest) in local and remote mode; after every tool run the server holds no lock and a following slot operation completes. non-trivial = operation sequence whose arguments and results were compared; distinct by sequence")
 	c.Assume("error texts exactly 'SUCCESS' / '' and extension payloads that are empty or start with byte 5/28 are in-band protocol artefacts, excluded from the alphabet", "private keys are compared through their public keys")
 	ops := map[string]c13Op{}
 	list := c13StubOps()
